@@ -14,7 +14,26 @@ use cairo_lang_sierra_generator::replace_ids::replace_sierra_ids_in_program;
 
 pub mod shape;
 
-pub const CORELIB: &str = "/repo/corelib/src";
+/// The compiler checkout under test: `VERIF_REPO` (set by lib/seedeval.sh for scratch worktrees) or /repo.
+pub fn repo() -> String {
+    std::env::var("VERIF_REPO").ok().filter(|s| !s.is_empty()).unwrap_or_else(|| "/repo".to_string())
+}
+/// The /verif checkout this binary belongs to (…/harness/target/debug/<bin> -> …), so that a scratch
+/// worktree reads its own corpus.
+pub fn verif_root() -> String {
+    if let Ok(r) = std::env::var("VERIF_ROOT") {
+        return r;
+    }
+    let exe = std::env::current_exe().ok();
+    let root = exe.as_ref().and_then(|e| e.parent()).and_then(|p| p.parent()).and_then(|p| p.parent()).and_then(|p| p.parent());
+    match root {
+        Some(r) if r.join("corpus").is_dir() => r.to_string_lossy().to_string(),
+        _ => "/verif".to_string(),
+    }
+}
+pub fn corelib() -> String {
+    format!("{}/corelib/src", repo())
+}
 
 /// A database as `cairo-compile` builds it (default plugins, auto withdraw gas), with the
 /// development corelib compiled from source.
@@ -24,7 +43,7 @@ pub fn build_db(opt: Option<Optimizations>) -> RootDatabase {
         b.with_optimizations(o);
     }
     let mut db = b.build().expect("RootDatabase");
-    init_dev_corelib(&mut db, PathBuf::from(CORELIB));
+    init_dev_corelib(&mut db, PathBuf::from(corelib()));
     db
 }
 
